@@ -60,15 +60,18 @@ CHECKS = {
         technique="Coq proof (bridge to a replay spec + induction over the re-validated path) for an arbitrary sampler; oracle on >= 1000-row contaminated series for counter-example search",
     ),
     "C14": dict(
-        text=("Coq facts, by computation on the relation table REGENERATED from types/*.py on every run (finite table, hence proofs): exactly one identity parent per non-Generic type, "
-              "identity parents lead to Generic, a rank strictly increasing along every declared relation (acyclic), one relation per (source, type), identity relations use default guard/"
-              "transformer, shipped typesets nested and parent-closed. The generated constructor (VisionsTypeset.__init__/build_graph/check_isolates/find_root_node over the NxModel) is "
-              "compared with real visions on parent-closed subsets - ALL 1,180,800 of them in the thorough tier, each under two supply orders - for root, ordered nodes/edges, styles, types, "
-              "warnings; an independent well-formedness oracle judges the implementation. The lifting theorem from the table facts to every subset and order is stated in DESIGN.md and "
-              "not yet mechanised: that part is exhaustive enumeration, not proof."),
-        ref="DESIGN.md section 6 (C14)",
-        note=TB_COMMON + "The general order-independence theorem (GraphWF) is not mechanised yet; all-subsets coverage comes from exhaustive enumeration against the implementation. networkx model (NxModel.v) validated by this correspondence; the view node order of edge_subgraph is not modelled.",
-        technique="Coq computation over the regenerated finite relation table + exhaustive differential enumeration of all parent-closed subsets (extracted generated constructor vs real visions)",
+        text=("Coq theorem about the GENERATED VisionsTypeset.__init__/build_graph/check_isolates/check_cycles/find_root_node (theory/GraphWF.v, 121 Qed in the cone): for EVERY relation table "
+              "with the table facts, EVERY list of types that contains Generic and is parent-closed, in EVERY supply order and EVERY iteration order of Python's set, construction does not raise, "
+              "root = Generic, nodes = the given types, edges = exactly the relations declared on included types whose source is included (each carrying its relation object, dashed iff "
+              "inferential), the identity graph is the solid part: no edge into Generic, exactly one parent for every other type, every type reachable from Generic; a rank strictly increases "
+              "along every edge and the model's cycle check (Kahn) finds nothing; the only warnings are one per relation whose source is absent. The table facts (one identity parent, rank, "
+              "one relation per (source,type), nesting of StandardSet/GeometrySet/CompleteSet) are decided by computation on the table REGENERATED from types/*.py on every run, and the "
+              "theorem is instantiated with it (theory/ShippedGraph.v), so it covers all 1,180,800 parent-closed subsets x all orders at once. The generated loops are tied to their fold form "
+              "by bridge/Graph_bridge.v. The same extracted constructor is compared with real visions on parent-closed subsets (all of them in the thorough tier, two supply orders each) "
+              "for root, ordered nodes/edges, styles, types and warnings; an independent well-formedness oracle judges the implementation."),
+        ref="DESIGN.md section 3 (C14)",
+        note=TB_COMMON + "networkx is a hand model (coq/lib/NxModel.v: insertion-ordered node and adjacency dicts, add_edge, isolates, first topological source, edge_subgraph, Kahn for simple_cycles) validated by this correspondence; the node ORDER of the edge_subgraph view is not modelled (hash order in networkx; visions never depends on it). Python's set iteration order is an arbitrary permutation in the theorem and is read back from the interpreter in the correspondence.",
+        technique="Coq proof by loop invariant over the generated constructor (all tables with the table facts, all parent-closed subsets, all orders) + computation on the regenerated shipped table + exhaustive differential enumeration against real visions",
         category="proof",
     ),
     "C13": dict(
@@ -82,12 +85,13 @@ CHECKS = {
     ),
     "C19": dict(
         text=("Coq proof about the GENERATED output_graph code: what is handed to pydot is a fresh graph whose nodes are the typeset graph's nodes re-inserted sorted by name and whose "
-              "edges are its edges re-inserted sorted by (source, target) name with their own style; the method exports base_graph iff base_only. pydot/graphviz is an uninterpreted "
+              "edges are its edges re-inserted sorted by (source, target) name with their own style; the method exports base_graph iff base_only; two graphs with the same node set and the same "
+              "styled edge set export identically (sort is permutation-invariant for injective keys, proved). pydot/graphviz is an uninterpreted "
               "function of that ordered input. On the implementation: exports are parsed back and compared with the typeset's graphs, bytes compared across all supply orders for small "
               "typesets and sampled orders for larger ones; the DOT text handed to graphviz is compared, in order, with the generated model's."),
         ref="DESIGN.md section 6 (C19)",
-        note=TB_COMMON + "Byte-identity across supply orders follows from the sorted re-insertion when type names are distinct (computed for the shipped table); the permutation-invariance lemma of the sort is not mechanised yet, order independence is established by enumeration on the implementation.",
-        technique="Coq proof (generated export = sorted copy) + parse-back oracle and byte comparison across supply orders",
+        note=TB_COMMON + "Byte-identity across supply orders is a theorem (C19_export_independent_of_supply_order: theory/SortTheory.v proves that the stable insertion sort used by the generated code is a function of the multiset when keys are injective; type names are distinct by computation on the regenerated table; C14_supply_order_is_irrelevant gives the permutation premises) under the assumption that pydot/graphviz is a deterministic function of the ordered node and edge lists it is handed - that function is not modelled, it is exercised by the byte comparison on the implementation.",
+        technique="Coq proof (generated export = sorted copy; sorted copy is permutation-invariant) + parse-back oracle and byte comparison across supply orders",
     ),
     "C17": dict(
         text=("Coq proof over the Spark contains_ops and registration list REGENERATED from backends/spark/types/*.py, the generated engine and Spark traversal and the generated "
